@@ -76,3 +76,281 @@ pub(crate) fn tap_bool(site: &'static str, index: usize, value: &mut bool) {
     tap_bytes(site, index, &mut b);
     *value = b[0] & 1 != 0;
 }
+
+// ---------------------------------------------------------------------------------------------
+// Wrappers around private functions with plain-integer types. No behaviour of their own.
+// ---------------------------------------------------------------------------------------------
+
+use std::path::Path;
+
+use garble_lang::register_circuit::Circuit;
+use rand::{RngCore, SeedableRng};
+use rand_chacha::ChaCha20Rng;
+
+use crate::{
+    block::Block,
+    channel::Channel,
+    crypto::{AesRng, FIXED_KEY_HASH},
+    mpc::{
+        data_types::{Auth, Delta, Key, Mac, Share},
+        faand,
+        protocol::{_mpc, Context, Preprocessor},
+    },
+    utils::file_or_mem_buf::FileOrMemBuf,
+};
+
+/// Plain-integer view of an authenticated share: `macs[k]` / `keys[k]` are the MAC under party
+/// k's global key resp. the key for party k's bit.
+#[derive(Debug, Clone, PartialEq, Eq)]
+pub struct VShare {
+    pub bit: bool,
+    pub macs: Vec<u128>,
+    pub keys: Vec<u128>,
+}
+
+impl From<&Share> for VShare {
+    fn from(s: &Share) -> Self {
+        VShare {
+            bit: s.0,
+            macs: s.1.0.iter().map(|(m, _)| m.0).collect(),
+            keys: s.1.0.iter().map(|(_, k)| k.0).collect(),
+        }
+    }
+}
+
+impl From<&VShare> for Share {
+    fn from(s: &VShare) -> Self {
+        Share(
+            s.bit,
+            Auth(
+                s.macs
+                    .iter()
+                    .zip(&s.keys)
+                    .map(|(m, k)| (Mac(*m), Key(*k)))
+                    .collect(),
+            ),
+        )
+    }
+}
+
+/// State of the distributed preprocessing of one party (shared coins + global key).
+pub struct Pre {
+    delta: Delta,
+    i: usize,
+    n: usize,
+    two_by_two: Vec<Vec<Option<ChaCha20Rng>>>,
+    multi: ChaCha20Rng,
+}
+
+impl Pre {
+    /// Runs `shared_rng_pairwise` and `shared_rng` exactly as `fn_independent_pre` does.
+    pub async fn setup(
+        channel: &impl Channel,
+        i: usize,
+        n: usize,
+        delta: u128,
+    ) -> Result<Self, String> {
+        let two_by_two = faand::shared_rng_pairwise(channel, i, n)
+            .await
+            .map_err(|e| format!("{e:?}"))?;
+        let multi = faand::shared_rng(channel, i, n)
+            .await
+            .map_err(|e| format!("{e:?}"))?;
+        Ok(Self {
+            delta: Delta(delta),
+            i,
+            n,
+            two_by_two,
+            multi,
+        })
+    }
+
+    /// The next `words` u32 words of the multi-party coin stream (on a clone; nothing is consumed).
+    pub fn multi_words(&self, words: usize) -> Vec<u32> {
+        let mut r = self.multi.clone();
+        (0..words).map(|_| r.next_u32()).collect()
+    }
+
+    /// The next `words` u32 words of the pairwise coin stream shared with `k` (on a clone).
+    pub fn pair_words(&self, k: usize, words: usize) -> Option<Vec<u32>> {
+        let (a, b) = if self.i < k { (self.i, k) } else { (k, self.i) };
+        let mut r = self.two_by_two.get(a)?.get(b)?.clone()?;
+        Some((0..words).map(|_| r.next_u32()).collect())
+    }
+
+    /// `fashare` for `l` shares.
+    pub async fn fashare(&mut self, channel: &impl Channel, l: usize) -> Result<Vec<VShare>, String> {
+        let shares = faand::fashare(
+            (channel, self.delta),
+            self.i,
+            self.n,
+            l,
+            &mut self.two_by_two,
+            &mut self.multi,
+        )
+        .await
+        .map_err(|e| format!("{e:?}"))?;
+        Ok(shares.iter().map(VShare::from).collect())
+    }
+
+    /// `fashare` for the triple material followed by `beaver_aand`, exactly as `gen_auth_bits`
+    /// does for one batch.
+    pub async fn beaver_aand(
+        &mut self,
+        channel: &impl Channel,
+        alpha_beta: &[(VShare, VShare)],
+    ) -> Result<Vec<VShare>, String> {
+        let and_shares: Vec<(Share, Share)> = alpha_beta
+            .iter()
+            .map(|(a, b)| (Share::from(a), Share::from(b)))
+            .collect();
+        let b = faand::bucket_size(and_shares.len());
+        let xyz = faand::fashare(
+            (channel, self.delta),
+            self.i,
+            self.n,
+            and_shares.len() * b * 3,
+            &mut self.two_by_two,
+            &mut self.multi,
+        )
+        .await
+        .map_err(|e| format!("{e:?}"))?;
+        let out = faand::beaver_aand(
+            (channel, self.delta),
+            &and_shares,
+            self.i,
+            self.n,
+            and_shares.len(),
+            &mut self.multi,
+            &xyz,
+        )
+        .await
+        .map_err(|e| format!("{e:?}"))?;
+        Ok(out.iter().map(VShare::from).collect())
+    }
+}
+
+/// The bucket size the engine uses for a batch of `l` AND triples.
+pub fn bucket_size(l: usize) -> usize {
+    faand::bucket_size(l)
+}
+
+/// The trusted-dealer preprocessor.
+pub async fn fpre(channel: &(impl Channel + Send), parties: usize) -> Result<(), String> {
+    crate::mpc::fpre::fpre(channel, parties)
+        .await
+        .map_err(|e| format!("{e:?}"))
+}
+
+/// `mpc` with the trusted dealer `p_fpre` instead of the distributed preprocessing.
+#[allow(clippy::too_many_arguments)]
+pub async fn mpc_trusted_dealer(
+    channel: &impl Channel,
+    circuit: &Circuit,
+    inputs: &[bool],
+    p_fpre: usize,
+    p_eval: usize,
+    p_own: usize,
+    p_out: &[usize],
+    tmp_dir: Option<&Path>,
+) -> Result<Vec<bool>, crate::Error> {
+    let ctx = Context::new(
+        channel,
+        circuit,
+        inputs,
+        Preprocessor::TrustedDealer(p_fpre),
+        p_eval,
+        p_own,
+        p_out,
+        tmp_dir,
+    );
+    _mpc(&ctx).await
+}
+
+/// `FileOrMemBuf<u64>`.
+pub struct VerifBuf(FileOrMemBuf<u64>);
+
+impl VerifBuf {
+    pub fn new(dir: Option<&Path>, capacity: usize) -> std::io::Result<Self> {
+        Ok(Self(FileOrMemBuf::new(dir, capacity)?))
+    }
+
+    pub fn write_chunk(&mut self, chunk: &[u64]) -> Result<(), String> {
+        self.0.write_chunk(chunk).map_err(|e| format!("{e:?}"))
+    }
+
+    /// Item-wise iteration; yields at most `take` items, then drops the iterator.
+    pub fn iter_take(&mut self, take: usize) -> Result<Vec<u64>, String> {
+        let it = self.0.iter().map_err(|e| format!("{e:?}"))?;
+        it.take(take)
+            .collect::<Result<Vec<_>, _>>()
+            .map_err(|e| format!("{e:?}"))
+    }
+
+    /// Chunk-wise iteration; yields at most `take` chunks, then drops the iterator.
+    pub fn chunks_take(&mut self, size: usize, take: usize) -> Result<Vec<Vec<u64>>, String> {
+        let it = self.0.chunks(size).map_err(|e| format!("{e:?}"))?;
+        it.take(take)
+            .map(|c| c.map(|c| c.into_owned()))
+            .collect::<Result<Vec<_>, _>>()
+            .map_err(|e| format!("{e:?}"))
+    }
+}
+
+/// `transpose_bitmatrix` (runtime dispatch).
+pub fn transpose_bitmatrix(input: &[u8], output: &mut [u8], rows: usize) {
+    crate::transpose::transpose_bitmatrix(input, output, rows)
+}
+
+/// The portable transpose.
+pub fn transpose_portable(input: &[u8], output: &mut [u8], rows: usize) {
+    crate::transpose::verif_portable(input, output, rows)
+}
+
+/// `Block::clmul` (runtime dispatch); returns (low, high).
+pub fn clmul(a: u128, b: u128) -> (u128, u128) {
+    let (lo, hi) = Block::from(a).clmul(&Block::from(b));
+    (lo.into(), hi.into())
+}
+
+/// The scalar `clmul128`; returns (low, high).
+pub fn clmul_scalar(a: u128, b: u128) -> (u128, u128) {
+    crate::block::verif_clmul_scalar(a, b)
+}
+
+/// `FIXED_KEY_HASH.cr_hash_block` on the 16 bytes of a block.
+pub fn cr_hash(x: [u8; 16]) -> [u8; 16] {
+    FIXED_KEY_HASH.cr_hash_block(Block::from(x)).into()
+}
+
+/// `FIXED_KEY_HASH.tccr_hash_block` on the 16 bytes of tweak and block.
+pub fn tccr_hash(tweak: [u8; 16], x: [u8; 16]) -> [u8; 16] {
+    FIXED_KEY_HASH
+        .tccr_hash_block(Block::from(tweak), Block::from(x))
+        .into()
+}
+
+/// `AesRng::from_seed(seed).fill_bytes(n bytes)` in one call on a fresh generator.
+pub fn aes_rng_fill(seed: [u8; 16], n: usize) -> Vec<u8> {
+    let mut rng = AesRng::from_seed(Block::from(seed));
+    let mut out = vec![0u8; n];
+    rng.fill_bytes(&mut out);
+    out
+}
+
+/// `AesRng::from_seed(seed)` followed by one `fill_bytes` call per entry of `lens`.
+pub fn aes_rng_fill_seq(seed: [u8; 16], lens: &[usize]) -> Vec<Vec<u8>> {
+    let mut rng = AesRng::from_seed(Block::from(seed));
+    lens.iter()
+        .map(|n| {
+            let mut out = vec![0u8; *n];
+            rng.fill_bytes(&mut out);
+            out
+        })
+        .collect()
+}
+
+/// `ot::block_to_u128` of a block given by its bytes.
+pub fn block_to_u128(x: [u8; 16]) -> u128 {
+    crate::ot::block_to_u128(Block::from(x))
+}
